@@ -6,6 +6,7 @@ from ..analysis import (events, is_encode_call, is_decode_call, cond_desc, ret_a
                         try_edges_after)
 from ..mir import Prov, Guards, show, callee_name, walk_term, discr_variants
 from . import c10
+from .predicates import run_predicates
 
 ENC = re.compile(r"^<(.*) as encode::Encodable>::consensus_encode$|^.*::<impl encode::Encodable for (.*)>::consensus_encode$")
 DEC = re.compile(r"^<(.*) as encode::Decodable>::consensus_decode$|^.*::<impl encode::Decodable for (.*)>::consensus_decode$")
@@ -685,6 +686,8 @@ def run(c, prog, ctx):
     _box_option(c, prog, encs, decs)
     _varints(c, prog)
     _length_accounting(c, prog, encs)
+    # guard predicates the codec branches on (witness flag, issuance flag, null-ness)
+    run_predicates(c, prog, "R3.guard-predicates")
     # R5: bounded allocation on decoder paths (shared implementation with C10.R2)
     reach = {}
     for ty, fd in decs.items():
